@@ -208,6 +208,8 @@ class Evaluator:
                 return v.truth()
             except ValueError as e:
                 raise EvalRaised("ValueError", str(e))
+        if isinstance(v, Obj) and "__len__" in v.attrs:
+            return v.attrs["__len__"] != 0   # an abstract object of a class that defines __len__ (and no __bool__): falsy when empty
         return bool(v)
 
     # -- operators
@@ -238,7 +240,7 @@ class Evaluator:
         if isinstance(n.op, ast.Invert):
             return ~v
         if isinstance(n.op, ast.Not):
-            return not v
+            return not self.truth(v)
         if isinstance(n.op, ast.USub):
             return -v
         if isinstance(n.op, ast.UAdd):
